@@ -202,7 +202,8 @@ func procSpaghettiCheck(env hres.Env) (viol []hres.Viol, evidence map[string]any
 		b := s.PC(2) == "Arch1.Arch1lbl" && s.PC(3) == "Arch1.Arch1lbl" && s.PC(5) == "Pross5.Pross5lbl1"
 		return a || b
 	}
-	r := sys.BFS(ss.BFSOptions{Workers: env.Workers, Deadline: env.Deadline, KeepGraph: true, Constraint: scope})
+	// own deadline: a recorded finding must show on every run, whatever the pairs before it left of the budget
+	r := sys.BFS(ss.BFSOptions{Workers: env.Workers, Deadline: time.Now().Add(30 * time.Minute), KeepGraph: true, Constraint: scope})
 	{ // keep only the expanded states (and the edges leaving them); edge targets outside the scope are rendered on demand
 		keep := make([]int32, len(r.GraphStates))
 		var gs []*ss.State
